@@ -68,6 +68,14 @@ impl Story {
     ) -> Result<(), StoryError> {
         self.if_async_we_cant("call ChoosePathString right now")?;
 
+        // Resolve the path before touching any state, so that an unknown
+        // path is refused without resetting the call stack, pushing the
+        // arguments or clearing the current choices.
+        Story::pointer_at_path(
+            &self.main_content_container,
+            &Path::new_with_components_string(Some(path)),
+        )?;
+
         if reset_call_stack {
             self.reset_callstack()?;
         } else {
